@@ -12,6 +12,7 @@ import CocaVerif.Drv.Git
 import CocaVerif.Drv.Todo
 import CocaVerif.Drv.Arch
 import CocaVerif.Drv.Deps
+import CocaVerif.Drv.Cloc
 open Lean
 
 partial def loop {σ : Type} (h : IO.FS.Stream) (out : IO.FS.Stream) (step : σ → Json → σ × Json) (st : σ) : IO Unit := do
@@ -41,4 +42,5 @@ def main (args : List String) : IO UInt32 := do
   | ["todo"] => loop stdin stdout CocaVerif.Drv.Todo.step (); return 0
   | ["arch"] => loop stdin stdout CocaVerif.Drv.Arch.step (); return 0
   | ["deps"] => loop stdin stdout CocaVerif.Drv.Deps.step (); return 0
+  | ["cloc"] => loop stdin stdout CocaVerif.Drv.Cloc.step (); return 0
   | _ => IO.eprintln "usage: driver <family>"; return 2
